@@ -222,7 +222,11 @@ pub fn drive_fuzz(ctx: &Ctx, target: &'static str, runs: u64) {
         }
         let Ok(data) = std::fs::read(a) else { continue };
         if let Some(sub) = subs.iter().find(|s| s.name == subname) {
-            if let Err(f) = (sub.f)(&data, &mut Stats::new()) {
+            let r = match catch(|| (sub.f)(&data, &mut Stats::new())) {
+                Ok(r) => r,
+                Err((m, l)) => Err(Fail::new("harness-or-unguarded-panic", format!("{}:{}", l, normalise_panic(&m)), format!("panic outside a guarded call at {}: {}", l, m))),
+            };
+            if let Err(f) = r {
                 if !ctx.is_open_known(&f.signature()) {
                     report(ctx, sub, &data, &f);
                 }
